@@ -364,6 +364,10 @@ def check_abort_bookkeeping(run, repo):
 def main(repo_path, tier, seed, replay=None):
     run = Run('C14', tier, level='other', seed=seed)
     repo = Repo(repo_path)
+    import re
+    from .. import memo
+    memo.check(run, repo, 'C14-MEMO', lambda rel, q: re.search(r'(translate_address|check_permission|mpu|default_memory|alignment_fault|data_abort|mem_a_with_priv)', q) is not None,
+               'PMSA address translation, permission checking and abort reporting')
     check_regions(run, repo, 1)
     check_regions(run, repo, 3, fixed_lsbits=(16, 12, 8))
     if tier == 'thorough':
